@@ -510,9 +510,15 @@ def flags_from_author(prog, an, rep):
                 'text argument is %s' % (src(tx) if tx is not None else '?'))
             px = args.get('prefix')
             ptxt = src(_expand(f, loop, px)) if px is not None else ''
-            rep.check(ptxt == "'@{}'.format(%s.settings.robot)" % job or
-                      ptxt == "'@%%s' %% %s.settings.robot" % job or
-                      ptxt == "f'@{%s.settings.robot}'" % job, R,
+            from ..rules import string_template
+            ptpl = string_template(_expand(f, loop, px)) \
+                if px is not None else None
+            # (the robot writes itself as its username: str(UserDict))
+            rep.check(ptpl is not None and ptpl[0] == '@{}' and
+                      src(ptpl[1][0]) in (
+                          '%s.settings.robot' % job,
+                          '%s.settings.robot.username' % job,
+                          'str(%s.settings.robot)' % job), R,
                       '%s: %s prefix is @<robot>' % (f.qname, meth),
                       f.where(call), 'prefix is %s' % ptxt, detail=ptxt)
     rep.floor('C07 reactor calls in handle_comments', seen, 2)
